@@ -25,9 +25,9 @@ Inductive ores :=
 
 Fixpoint has_exec (i : item) : bool :=
   match i with
-  | ICmd c => match c_kind c with KExec => true | _ => false end
-  | IGroup _ _ body => existsb has_exec body
-  | ILimit _ | INoclobber _ => false
+  | ICmd c | ISubst c => exec_like (c_kind c)
+  | IGroup _ _ body | IDot _ _ _ body => existsb has_exec body
+  | IPipe _ | IStartup _ | ILimit _ | INoclobber _ => false
   end.
 
 (* the table an exiting command must leave behind: the one before the command
@@ -35,68 +35,128 @@ Fixpoint has_exec (i : item) : bool :=
    or unknown (an exec in an enclosing body may have changed it for good) *)
 Inductive oref := RSelf | RObs (o : obs) | RNone.
 
+Definition exit_ref (outer : oref) (before : obs) (s1 : step) : obs :=
+  if st_exit s1
+  then match outer with RSelf => before | RObs o => o | RNone => st_after s1 end
+  else before.
+
+(* the steps of the children of a pipeline of n commands, from the k-th on:
+   m steps are consumed *)
+Fixpoint pipe_walk (before : obs) (n k m : nat) (sts : list step) : option (list step) :=
+  match m with
+  | O => Some sts
+  | S m' =>
+      match sts with
+      | [] => None
+      | s :: rest =>
+          if match st_inside s with
+             | Some ch => child_ok before ch (Nat.ltb 1 k) (Nat.ltb k n)
+             | None => true
+             end
+          then pipe_walk before n (S k) m' rest
+          else None
+      end
+  end.
+
 Fixpoint oracle_item (outer : oref) (st : ost) (i : item) (sts : list step) : ores :=
   match sts with
   | [] => OBad 99%N
   | s1 :: rest =>
       let before := o_before st in
+      let ref := exit_ref outer before s1 in
+      let go_on := OCont (mkO (o_nc st) (o_lim st) (st_after s1)) rest in
+      if negb (table_below (o_lim st) (ob_tab before)) then OBad 99%N
+      else
       match i with
       | ICmd c =>
-          if negb (table_below (o_lim st) (ob_tab before)) then OBad 99%N
-          else
-            let ref := if st_exit s1
-                       then match outer with RSelf => before | RObs o => o | RNone => st_after s1 end
-                       else before in
-            match oracle_cmd (o_nc st) (o_lim st) ref before c s1 with
-            | Some k => OBad (2 + k)%N
-            | None => if st_exit s1 then OStop
-                      else OCont (mkO (o_nc st) (o_lim st) (st_after s1)) rest
-            end
+          match oracle_cmd (o_nc st) (o_lim st) ref before c s1 with
+          | Some k => OBad (2 + k)%N
+          | None => if st_exit s1 then OStop else go_on
+          end
       | ILimit l =>
           if negb (restored (ob_tab before) (ob_tab (st_after s1))) then OBad 2%N
           else OCont (mkO (o_nc st) l (st_after s1)) rest
       | INoclobber b =>
           if negb (restored (ob_tab before) (ob_tab (st_after s1))) then OBad 2%N
           else OCont (mkO b (o_lim st) (st_after s1)) rest
-      | IGroup k rs body =>
-          if negb (table_below (o_lim st) (ob_tab before)) then OBad 99%N
-          else
-            match st_inside s1 with
-            | None =>
-                (* the redirections were refused: the body does not run *)
-                match oracle_cmd (o_nc st) (o_lim st) before before (mkCmd k rs) s1 with
-                | Some v => OBad (2 + v)%N
-                | None => OCont (mkO (o_nc st) (o_lim st) (st_after s1)) rest
-                end
-            | Some bstart =>
-                match oracle_seen (o_nc st) (o_lim st) before (mkCmd k rs) s1 with
-                | Some v => OBad (2 + v)%N
-                | None =>
-                    let outer' := if existsb has_exec body then RNone
-                                  else match outer with RSelf => RObs before | x => x end in
-                    let run_list :=
-                      fix run_list (st : ost) (l : list item) (sts : list step) : ores :=
-                        match l with
-                        | [] => OCont st sts
-                        | x :: l' =>
-                            match oracle_item outer' st x sts with
-                            | OCont st' sts' => run_list st' l' sts'
-                            | r => r
-                            end
-                        end in
-                    match run_list (mkO (o_nc st) (o_lim st) bstart) body rest with
-                    | OCont st' (p :: rest') =>
-                        (* the compound command is over: restored, unless
-                           something in the body was meant to persist *)
-                        if negb (existsb has_exec body)
-                           && negb (restored (ob_tab before) (ob_tab (st_after p)))
-                        then OBad 2%N
-                        else OCont (mkO (o_nc st') (o_lim st') (st_after p)) rest'
-                    | OCont _ [] => OBad 99%N
-                    | r => r
+      | IStartup _ =>
+          (* the script is opened: one new internal descriptor, or - if that
+             fails - nothing at all *)
+          if st_exit s1 then
+            if restored (ob_tab before) (ob_tab (st_after s1)) then OStop else OBad 2%N
+          else if internal_ok [] (ob_tab before) (ob_tab (st_after s1)) then go_on else OBad 4%N
+      | ISubst c =>
+          match st_inside s1, st_exit s1 with
+          | None, true =>
+              (* the pipe could not be made: expansion error *)
+              if restored (ob_tab ref) (ob_tab (st_after s1)) then OStop else OBad 2%N
+          | ch, _ =>
+              if match ch with Some o => child_ok before o false true | None => true end then
+                match rest with
+                | [] => OBad 99%N
+                | s2 :: rest' =>
+                    match oracle_cmd (o_nc st) (o_lim st) (exit_ref outer before s2) before c s2 with
+                    | Some k => OBad (2 + k)%N
+                    | None => if st_exit s2 then OStop
+                              else OCont (mkO (o_nc st) (o_lim st) (st_after s2)) rest'
                     end
                 end
-            end
+              else OBad 10%N
+          end
+      | IPipe n =>
+          let m := if st_exit s1 then length sts else n in
+          match pipe_walk before n 1 m sts with
+          | None => OBad 10%N
+          | Some rest' =>
+              if negb (restored (ob_tab ref) (ob_tab (st_after s1))) then OBad 2%N
+              else if st_exit s1 then OStop
+              else OCont (mkO (o_nc st) (o_lim st) (st_after s1)) rest'
+          end
+      | IGroup _ rs body | IDot _ rs _ body =>
+          match st_inside s1 with
+          | None =>
+              (* the redirections were refused or the script could not be
+                 opened: the body does not run *)
+              match oracle_table ref before (mkCmd KGroup rs) s1 with
+              | Some v => OBad (2 + v)%N
+              | None =>
+                  match (match i with
+                         | IGroup _ _ _ => oracle_seen (o_nc st) (o_lim st) ref before (mkCmd KGroup rs) s1
+                         | _ => None
+                         end) with
+                  | Some v => OBad (2 + v)%N
+                  | None => if st_exit s1 then OStop else go_on
+                  end
+              end
+          | Some bstart =>
+              match oracle_seen (o_nc st) (o_lim st) before before (mkCmd KGroup rs) s1 with
+              | Some v => OBad (2 + v)%N
+              | None =>
+                  let outer' := if existsb has_exec body then RNone
+                                else match outer with RSelf => RObs before | x => x end in
+                  let run_list :=
+                    fix run_list (st : ost) (l : list item) (sts : list step) : ores :=
+                      match l with
+                      | [] => OCont st sts
+                      | x :: l' =>
+                          match oracle_item outer' st x sts with
+                          | OCont st' sts' => run_list st' l' sts'
+                          | r => r
+                          end
+                      end in
+                  match run_list (mkO (o_nc st) (o_lim st) bstart) body rest with
+                  | OCont st' (p :: rest') =>
+                      (* the command is over: restored, unless something in
+                         the body was meant to persist *)
+                      if negb (existsb has_exec body)
+                         && negb (restored (ob_tab before) (ob_tab (st_after p)))
+                      then OBad 2%N
+                      else OCont (mkO (o_nc st') (o_lim st') (st_after p)) rest'
+                  | OCont _ [] => OBad 99%N
+                  | r => r
+                  end
+              end
+          end
       end
   end.
 
